@@ -1,5 +1,5 @@
 (* C08 — Suggestions are append-only, exactly counted and synced atomically. *)
-From KV Require Import Base.Prelude Base.Cond Model.World Proofs.WorldPlan Proofs.WorldInv Proofs.WorldInv2 Proofs.WorldInv5 Proofs.WorldThm.
+From KV Require Import Base.Prelude Base.Cond Model.World Proofs.WorldPlan Proofs.WorldInv Proofs.WorldInv2 Proofs.WorldInv5 Proofs.WorldThm Proofs.WorldNames Proofs.F18.
 Open Scope Z_scope.
 
 (* Append-only over runs: the assignment list of any reachable state is a prefix of the list in every later state. *)
@@ -32,3 +32,17 @@ Theorem C08_trials_are_assignments : forall c acts n,
   exists s, w_sug (run c acts) = Some s /\ In n (ss_names (s_st s)) /\ NoDup (names (w_trials (run c acts))).
 Proof. exact trial_is_assignment. Qed.
 Print Assumptions C08_trials_are_assignments.
+
+(* "Entry names are unique", from an assumption on the ANSWERS of the algorithm service rather than on the state reached:
+   if every successful reply that is asked for (requests exceed suggestionCount) consists of distinct names none of which
+   is already in the suggestion the reconcile is looking at -- katib's services name trials with fresh random suffixes --
+   then in every reachable state the assignment names of the stored suggestion are pairwise distinct. *)
+Theorem C08_names_unique : forall c acts s,
+  valid_cfg c -> no_teardown acts -> fresh_run c acts -> w_sug (run c acts) = Some s -> NoDup (ss_names (s_st s)).
+Proof. exact names_unique. Qed.
+Print Assumptions C08_names_unique.
+
+(* Non-vacuity: the 751-action history of Proofs/F18.v (RPC error, stale caches, a raise of maxTrialCount) has fresh replies. *)
+Theorem C08_fresh_history_exists : fresh_run f18_cfg f18_acts.
+Proof. exact f18_fresh. Qed.
+Print Assumptions C08_fresh_history_exists.
